@@ -653,20 +653,24 @@ class Circuit(Function):
                     gates_for_block.add(new_label)
             else:
                 if right_connect:
-                    for operand in cur_gate.operands:
-                        self._add_user(
-                            old_to_new_names[operand],
-                            old_to_new_names[cur_gate.label],
+                    # one gate of `other` may feed several inputs of `self`
+                    for this_label, other_label in zip(
+                        this_connectors, other_connectors
+                    ):
+                        if other_label != cur_gate.label:
+                            continue
+                        for operand in cur_gate.operands:
+                            self._add_user(old_to_new_names[operand], this_label)
+                        self._gates[this_label] = gate.Gate(
+                            label=this_label,
+                            gate_type=cur_gate.gate_type,
+                            operands=tuple(
+                                old_to_new_names[operand]
+                                for operand in cur_gate.operands
+                            ),
                         )
-                    self._gates[old_to_new_names[cur_gate.label]] = gate.Gate(
-                        label=old_to_new_names[cur_gate.label],
-                        gate_type=cur_gate.gate_type,
-                        operands=tuple(
-                            old_to_new_names[operand] for operand in cur_gate.operands
-                        ),
-                    )
-                    if cur_gate.gate_type != gate.INPUT:
-                        gates_for_block.add(old_to_new_names[cur_gate.label])
+                        if cur_gate.gate_type != gate.INPUT:
+                            gates_for_block.add(this_label)
 
         self.set_outputs(
             [output for output in self._outputs if output not in this_connectors]
